@@ -229,10 +229,17 @@ def run_case(c, inputs: dict, call=None, extra_ns=None) -> NativeResult:
                 nr.failures.append((f"post:{lab}", "postcondition false"))
     else:
         allowed = None
+        # several clauses may permit the same exception type (duplicate URI / padding too large): the clause that applies is the first whose stated
+        # condition holds (or that states none); only if none does, the first clause of that type is reported as violated
+        first = None
         for i, (rs, w, ens) in enumerate(rs_compiled):
             if isinstance(nr.exc, resolve_exception_native(rs.exc)):
-                allowed = i
-                break
+                first = i if first is None else first
+                if when_vals[i] is not False:
+                    allowed = i
+                    break
+        if allowed is None:
+            allowed = first
         if allowed is None:
             nr.failures.append(("raises", f"escaping {type(nr.exc).__name__}: {str(nr.exc)[:200]}"))
         else:
